@@ -47,7 +47,22 @@ func scratchFile(name string) string {
 
 func genC16(t *rapid.T) WKCase {
 	k := wl.GenConfig(t, wl.CfgParams{Compressions: []string{""}, NoSkipMagic: true, SmallChunks: rapid.Bool().Draw(t, "small")})
-	return WKCase{W: wl.GenWorkload(t, wl.GenParams{ChunkHint: k.ChunkSize, NoLong: true, MaxMsgs: 40}), K: k}
+	w := wl.GenWorkload(t, wl.GenParams{ChunkHint: k.ChunkSize, NoLong: true, MaxMsgs: 40})
+	// one case in 40 carries a message of 1.1-2.5 MiB that is not the last one: larger than any multiple of the
+	// small chunk sizes and than typical internal buffer thresholds
+	if rapid.IntRange(0, 39).Draw(t, "big-message?") == 0 {
+		var idx []int
+		for i, o := range w.Ops {
+			if o.M != nil {
+				idx = append(idx, i)
+			}
+		}
+		if len(idx) >= 2 {
+			i := idx[rapid.IntRange(0, len(idx)-2).Draw(t, "big-message-at")]
+			w.Ops[i].M.Data = wl.Fill(rapid.IntRange(1100<<10, 2500<<10).Draw(t, "big-message-size"), rapid.Uint64().Draw(t, "big-message-seed"))
+		}
+	}
+	return WKCase{W: w, K: k}
 }
 
 func pyTriples(label string, got []pyw.Rec) []mc.Triple {
